@@ -19,6 +19,19 @@ namespace fsh
                 ov[i] = to_status(g.next());
             }
         }
+        // optional trailing token `len=<L>`: build the grid with from_length (the spacing token then
+        // holds L / (n - 1) as computed by the generator)
+        bool from_len = false;
+        double len = 0;
+        if (g.more())
+        {
+            std::string t = g.next();
+            if (t.rfind("len=", 0) == 0)
+            {
+                len = unhex(t.substr(4));
+                from_len = true;
+            }
+        }
         auto go = [&](auto tag)
         {
             using C = typename decltype(tag)::type;
@@ -27,7 +40,10 @@ namespace fsh
             try
             {
                 fs::profile_boundary_status bs(L, R);
-                grid = std::make_unique<G>(n, dx, bs, ov);
+                if (from_len)
+                    grid = std::make_unique<G>(G::from_length(n, len, bs, ov));
+                else
+                    grid = std::make_unique<G>(n, dx, bs, ov);
             }
             catch (const std::exception& e)
             {
